@@ -25,3 +25,14 @@ CONFIG = {
         "uint32 sequence IDs as N with explicit wrap-around; time in milliseconds of the injected clock",
     ],
 }
+
+
+# ---- merged by the coordinator: NFSv4.0 area (checks/snippets/nfs40.json)
+import json as _json40, os as _os40
+_n40 = _json40.load(open(_os40.path.join(_os40.path.dirname(_os40.path.abspath(__file__)), "snippets", "nfs40.json")))
+CONFIG["coq_dirs"] = CONFIG["coq_dirs"] + [d for d in _n40["coq_dirs"] if d not in CONFIG["coq_dirs"]]
+CONFIG["coq_targets"] = CONFIG["coq_targets"] + ["theories/Nfs40/PropertiesC18.vo", "theories/Nfs40/Examples.vo", "theories/Nfs40/Corr.vo"]
+CONFIG["properties_files"] = CONFIG["properties_files"] + ["theories/Nfs40/PropertiesC18.v"]
+CONFIG["harnesses"] = CONFIG["harnesses"] + [dict(_n40["harness"], shared=True, coq_dirs=["theories/Nfs40"])]
+CONFIG["trusted_base"] = CONFIG.get("trusted_base", []) + (_n40["trusted_base"] if isinstance(_n40["trusted_base"], list) else [_n40["trusted_base"]])
+CONFIG["assumptions"] = CONFIG.get("assumptions", []) + (_n40["assumptions"] if isinstance(_n40["assumptions"], list) else [_n40["assumptions"]])
